@@ -46,6 +46,12 @@ def gen_cases(tier, seed):
             for obs in OBSERVERS[:-1]:
                 j += 1
                 yield {'family': obs, 'idx': 10 ** 6 + j, 'seed': seed, 'edge': edge}
+        # a CSV file loaded with load()'s defaults delivers uncast cell text under an inferred typed schema: observers
+        # whose captured content is compared after a cast (dump + load back) or that capture nothing
+        for obs in ('dump_to_path', 'dump_to_zip', 'validate', 'finalizer', 'update_stats'):
+            for variant in range(3):
+                j += 1
+                yield {'family': obs, 'idx': 10 ** 6 + j, 'seed': seed, 'edge': 'raw_csv_load', 'variant': variant}
 
 
 EDGES = ['inner_join_empty_source', 'inner_join_empty_target', 'inner_join_no_match', 'join_source_delete',
@@ -85,6 +91,15 @@ def edge_program(rng, edge):
     if edge == 'dedup_all_same':
         return [tab('a', rows(0, big, n=1))], [{'op': 'set_primary_key', 'res': 'a', 'sel': 'a', 'pk': ['n']},
                                                   {'op': 'deduplicate', 'res': 'a', 'sel': 'a'}], 1
+    if edge == 'raw_csv_load':
+        n = rng.choice([2, 7, 120])
+        cols = [['id', 'integer'], ['b', 'boolean'], ['t', 'datetime'], ['x', 'number'], ['dt', 'date'], ['s', 'string']]
+        lines = ['id,b,t,x,dt,s']
+        for i in range(n):
+            lines.append('%d,%s,2020-01-%02dT10:00:00Z,%s,2019-12-%02d,%s' % (
+                i, ['true', 'false'][i % 2], i % 28 + 1, ['1.5', '2', '-0.25'][i % 3], i % 28 + 1, ['a', 'hello', 'b c'][i % 3]))
+        t = {'name': 'raw', 'kind': 'csv', 'fields': cols, 'rows': [None] * n, 'csv_text': '\n'.join(lines) + '\n'}
+        return [t], [], 0
     # mutate_in_place_after: >20 rows and in-place editors right after the observer
     return [tab('a', rows(0, rng.choice([25, 60, 130])))], \
         [{'op': 'user', 'fn': 'u_bump_n', 'form': 'function'},
